@@ -158,6 +158,66 @@ pub fn run(ctx: &'static Ctx) {
     }
     ctx.engine("E2.table-states", json!(rep));
 
+    // ---- a PackageBuilder is a sink with state: serialising it between pushes must not change what it emits later.
+    // Every sequence of <= 4 pushes over {byte-wise object, word, dword, qword, buffered object, add_element}, once with a
+    // serialisation after every push and once without: the final streams must be equal (and equal when repeated)
+    {
+        use acpi_tables::aml::{PackageBuilder, ONE};
+        let pushes: Vec<(&str, Box<dyn Fn(&mut PackageBuilder) + Send + Sync>)> = vec![
+            ("byte-wise object (One)", Box::new(|b| ONE.to_aml_bytes(b))),
+            ("byte value 0x42", Box::new(|b| 0x42u8.to_aml_bytes(b))),
+            ("word 0x1234", Box::new(|b| 0x1234u16.to_aml_bytes(b))),
+            ("dword", Box::new(|b| 0x1234_5678u32.to_aml_bytes(b))),
+            ("qword", Box::new(|b| 0x0102_0304_0506_0708u64.to_aml_bytes(b))),
+            ("string (vec)", Box::new(|b| "abc".to_aml_bytes(b))),
+            ("add_element(One)", Box::new(|b| b.add_element(&ONE))),
+            ("60-byte string", Box::new(|b| "123456789012345678901234567890123456789012345678901234567890".to_aml_bytes(b))),
+        ];
+        let np = pushes.len();
+        let mut seqs: Vec<Vec<usize>> = vec![vec![]];
+        let mut fr = seqs.clone();
+        for _ in 0..(if quick { 3 } else { 4 }) {
+            let mut nx = vec![];
+            for s0 in &fr {
+                for i in 0..np {
+                    let mut q = s0.clone();
+                    q.push(i);
+                    nx.push(q);
+                }
+            }
+            seqs.extend(nx.iter().cloned());
+            fr = nx;
+        }
+        let cnt = seqs.len() as u64;
+        seqs.par_iter().for_each(|sq| {
+            ctx.tr(1);
+            let r = catch(|| {
+                let mut a = PackageBuilder::new();
+                let mut b = PackageBuilder::new();
+                for i in sq {
+                    (pushes[*i].1)(&mut a);
+                    let _ = ser(&a); // observed in between
+                    (pushes[*i].1)(&mut b);
+                }
+                (ser(&a), ser(&a), ser(&b))
+            });
+            match r {
+                Ok((a1, a2, b1)) => {
+                    ctx.distinct(fnv(&b1));
+                    if a1 != b1 || a1 != a2 {
+                        let names: Vec<&str> = sq.iter().map(|i| pushes[*i].0).collect();
+                        ctx.violation_sized("sink:PackageBuilder:serialised-in-between", sq.len() as u64, || format!("PackageBuilder after pushes {:?}: serialised after every push it ends as {} (again: {}); never serialised before, as {}", names, hex(&a1[..a1.len().min(24)]), hex(&a2[..a2.len().min(24)]), hex(&b1[..b1.len().min(24)])), || json!({"family":"builder-history","pushes":names}));
+                    }
+                }
+                Err(m) => {
+                    ctx.violation_sized("sink:PackageBuilder:panic", sq.len() as u64, || format!("PackageBuilder push sequence {:?} panicked: {}", sq, m), || json!({"family":"builder-history","pushes":sq}));
+                }
+            }
+        });
+        ctx.st(cnt);
+        ctx.engine("E2.package-builder-histories", json!({"push_kinds": np, "sequences": cnt, "what": "every push sequence with and without intermediate serialisations"}));
+    }
+
     // ---- raw in-memory form vs serialised form vs byte-sum helper
     let nraw = raw_forms(ctx);
     ctx.st(nraw);
